@@ -57,9 +57,14 @@ def main(tier, seed):
     crc7 = _crc7()
     res = core.Result()
 
+    kinds = [bytes, list, bytearray, tuple, lambda m: memoryview(bytes(m)), lambda m: iter(list(m))]
+
     def call(msg, as_list=False):
+        # the message is handed over in every container shape the function accepts (rotating), so a defect in how
+        # the bytes are consumed cannot hide behind one input type
         res.executions += 1
-        return crc7(list(msg) if as_list else bytes(msg))
+        k = kinds[(res.executions + (1 if as_list else 0)) % len(kinds)]
+        return crc7(k(msg))
 
     # base case
     if call(b"") != 0:
